@@ -10,7 +10,7 @@ Extraction "model.ml"
   put_uvarint read_uvarint serialize_entries deserialize_entries deserialize_res
   iterate_table
   zxy_to_id id_to_zxy parent_id
-  macro pending_calls status_body CVersion Model.Server.init
+  macro xinit pending_calls status_body CVersion Model.Server.init
   serve_http Ascii.N_of_ascii
   read_mock read_file read_http origin adapter_class
   route_of file_for_key
